@@ -82,7 +82,12 @@ bool guarded_apply(H &h, uint32_t op, InstResult &res, const std::vector<uint32_
 		pending().reset();
 		h.apply(op);
 		raise_pending();
-		if(san_flag()) { san_flag() = 0; throw Violation{"", "asan:" + h.show_class(op), "AddressSanitizer report during " + h.show(op)}; }
+		if(san_flag()) {
+			san_flag() = 0;
+			std::string pr;
+			if constexpr(requires { h.asan_prop(); }) pr = h.asan_prop();
+			throw Violation{pr, "asan:" + h.show_class(op), "AddressSanitizer report during " + h.show(op)};
+		}
 		if(state_check) {
 			h.check_state();
 			raise_pending();
